@@ -651,6 +651,125 @@ def run (cls : Cls) (img : Img) : List Op → Img
   | [] => img
   | op :: ops => run cls (step cls img op).2 ops
 
+/-! ### the syntactic skeleton of the source this step machine is written for
+    (compared by `skeleton_agrees` with the skeleton extracted from the working tree on every run) -/
+
+/-- `analyzeSave`: `materialize true` (the copy, unconditional for a memmap, before any open), `updateHeader`,
+    `applyOverride`, then `coreBody` inside `tryFinally … restore` — the four restores are the four fields of `restore` -/
+def expectedSkelAnalyze : List (String × String) := [
+  ("", "if(isinstance(data, np.memmap)): data = np.array(data)"),
+  ("", "self.update_header()"),
+  ("", "if(dtype is not None): hdr.set_data_dtype(dtype)"),
+  ("try: ", "if(scale_me): arr_writer = make_array_writer(data, out_dtype, hdr.has_data_slope, hdr.has_data_intercept)"),
+  ("try: ", "else(scale_me): arr_writer = ArrayWriter(data, out_dtype, check_scaling=False)"),
+  ("try: ", "hdrf = hdr_fh.get_prepare_fileobj(mode='wb')"),
+  ("try: ", "else(hdr_img_same): imgf = img_fh.get_prepare_fileobj(mode='wb')"),
+  ("try: ", "if(scale_me): hdr.set_slope_inter(*get_slope_inter(arr_writer))"),
+  ("try: ", "hdr.write_to(hdrf)"),
+  ("try: ", "seek_tell(imgf, hdr.get_data_offset(), write0=True)"),
+  ("try: ", "arr_writer.to_fileobj(imgf)"),
+  ("try: ", "hdrf.close_if_mine()"),
+  ("try: ", "if(not hdr_img_same): imgf.close_if_mine()"),
+  ("try: ", "self._header = hdr"),
+  ("try: ", "self.file_map = file_map"),
+  ("finally: ", "hdr.set_data_offset(offset)"),
+  ("finally: ", "hdr.set_data_dtype(data_dtype)"),
+  ("finally: ", "if(hdr.has_data_slope): hdr['scl_slope'] = slope"),
+  ("finally: ", "if(hdr.has_data_intercept): hdr['scl_inter'] = inter")]
+
+/-- `niftiSaveWith`: alias finalisation, `tryFinally inner (niftiRestore …)` — header dtype first, then the alias -/
+def expectedSkelNifti : List (String × String) := [
+  ("", "self.get_data_dtype(finalize=True)"),
+  ("try: ", "super().to_file_map(file_map, dtype)"),
+  ("finally: ", "super().set_data_dtype(hdr_dtype)"),
+  ("finally: ", "self.set_data_dtype(img_dtype)")]
+
+/-- `spmSaveWith`: the Analyze save, `return` when the affine is None, `spmM` / `spmMat` (every product
+    makes a NEW array: the only alias of `self._affine`, `M = mat`, is rebound before anything is written in place), `withOpened … matBody` -/
+def expectedSkelSpm : List (String × String) := [
+  ("", "super().to_file_map(file_map, dtype=dtype)"),
+  ("", "ALIAS-OF-AFFINE mat = self._affine"),
+  ("", "if(mat is None): return"),
+  ("", "if(hdr.default_x_flip): M = np.dot(np.diag([-1, 1, 1, 1]), mat)"),
+  ("", "else(hdr.default_x_flip): ALIAS-OF-AFFINE M = mat"),
+  ("", "from_111[:3, 3] = -1"),
+  ("", "M = np.dot(M, from_111)"),
+  ("", "mat = np.dot(mat, from_111)"),
+  ("", "with-enter file_map['mat'].get_prepare_fileobj(mode='wb') as mfobj"),
+  ("", "with: sio.savemat(mfobj, {'M': M, 'mat': mat}, format='4')"),
+  ("", "with-exit")]
+
+/-- `mghSave`: `materialize true`, `updateHeader`, `withOpened … mghBody`, the two bindings -/
+def expectedSkelMgh : List (String × String) := [
+  ("", "if(isinstance(data, np.memmap)): data = np.array(data)"),
+  ("", "self.update_header()"),
+  ("", "with-enter file_map['image'].get_prepare_fileobj('wb') as mghf"),
+  ("", "with: hdr.writehdr_to(mghf)"),
+  ("", "with: self._write_data(mghf, data, hdr)"),
+  ("", "with: hdr.writeftr_to(mghf)"),
+  ("", "with-exit"),
+  ("", "self._header = hdr"),
+  ("", "self.file_map = file_map")]
+
+/-- `ciftiSave`: `updateHeader` (update_headers + normalisation of the NIfTI header), a temporary Nifti2Image, its save -/
+def expectedSkelCifti : List (String × String) := [
+  ("", "self.update_headers()"),
+  ("", "header.extensions = Nifti1Extensions((ext for ext in header.extensions if not isinstance(ext, Cifti2Extension)))"),
+  ("", "header.extensions.append(extension)"),
+  ("", "if(self._dataobj.shape != self.header.matrix.get_data_shape()): raise ValueError"),
+  ("", "if(header.get_intent()[0] == 'none'): header.set_intent('NIFTI_INTENT_CONNECTIVITY_UNKNOWN')"),
+  ("", "if(header['qform_code'] == 0): header['pixdim'][:4] = 1"),
+  ("", "img = Nifti2Image(data, None, header, dtype=dtype)"),
+  ("", "img.to_file_map(file_map or self.file_map)")]
+
+/-- `saveByName`: bind first, then `to_file_map()` -/
+def expectedSkelToFilename : List (String × String) := [
+  ("", "self.file_map = self.filespec_to_file_map(filename)"),
+  ("", "self.to_file_map(**kwargs)")]
+
+/-- canonical name of the event a step of the `try:` body stands for -/
+def stepToken : Step → Option String
+  | .mkWriter => some "mk_writer"
+  | .openW _ => some "open"
+  | .setSlopeInter => some "set_slope_inter"
+  | .emitHdr _ => some "write_hdr"
+  | .seekTell _ _ => some "seek_tell"
+  | .emitData _ => some "write_data"
+  | .ios [⟨_, .close⟩] => some "close"
+  | .bindHeader => some "bind_header"
+  | .bindFileMap => some "bind_file_map"
+  | _ => none
+
+/-- canonical name of a source token of the `try:` body of `AnalyzeImage.to_file_map` (the `else` alternative of
+    the writer construction is the same step) -/
+def srcToken : String × String → Option String
+  | ("try: ", "if(scale_me): arr_writer = make_array_writer(data, out_dtype, hdr.has_data_slope, hdr.has_data_intercept)") => some "mk_writer"
+  | ("try: ", "hdrf = hdr_fh.get_prepare_fileobj(mode='wb')") => some "open"
+  | ("try: ", "else(hdr_img_same): imgf = img_fh.get_prepare_fileobj(mode='wb')") => some "open"
+  | ("try: ", "if(scale_me): hdr.set_slope_inter(*get_slope_inter(arr_writer))") => some "set_slope_inter"
+  | ("try: ", "hdr.write_to(hdrf)") => some "write_hdr"
+  | ("try: ", "seek_tell(imgf, hdr.get_data_offset(), write0=True)") => some "seek_tell"
+  | ("try: ", "arr_writer.to_fileobj(imgf)") => some "write_data"
+  | ("try: ", "hdrf.close_if_mine()") => some "close"
+  | ("try: ", "if(not hdr_img_same): imgf.close_if_mine()") => some "close"
+  | ("try: ", "self._header = hdr") => some "bind_header"
+  | ("try: ", "self.file_map = file_map") => some "bind_file_map"
+  | _ => none
+
+/-- a two-file class, files opened by name, scaling to be computed: every step of the body is present -/
+def skelEnv : Env :=
+  { owned := true, exts := [], mat := [], resolve := fun _ => none, writer := fun _ => ⟨true, none, none, 1, 1⟩ }
+def skelCtx : Ctx :=
+  { t := Gen.n1pair, env := skelEnv, fault := Fault.none, went := ⟨true, none, none, 1, 1⟩, scaleMe := true,
+    hdrLocal := 0 }
+
+/-- the source statements of the `finally:` block that `restore` models, field by field, in order -/
+def restoreTokens : List String :=
+  ["hdr.set_data_offset(offset)",                          -- offset := saved.offset
+   "hdr.set_data_dtype(data_dtype)",                       -- dtype := rtCode saved.dtype
+   "if(hdr.has_data_slope): hdr['scl_slope'] = slope",     -- slope := if hasSlope then saved.slope
+   "if(hdr.has_data_intercept): hdr['scl_inter'] = inter"] -- inter := if hasInter then saved.inter
+
 /-! ### compressed destinations: the gzip member header (RFC 1952) as CPython's `GzipFile._write_gzip_header`
     writes it, and the arguments nibabel passes (`DeterministicGzipFile`, openers.py:45-98).
     Bytes are `Nat`s < 256. The deflate body, CRC-32 and the file name → bytes encoding are external. -/
